@@ -204,11 +204,13 @@ def seeds(seed=0, kinds=None):
     o = lambda i, d: _off(seed, i, d)  # noqa: E731
 
     # ---- segments
+    add('L1', 'MeshLine1', [[.25, 1.5]], [[0], [1]])                     # a single cell: no interior facet
     add('L3', 'MeshLine1', [[0, .25, 1, 2.5]], [[0, 1, 2], [1, 2, 3]])
     add('L2c', 'MeshLine1', [[0, .5 + o(0, 1)[0], 1, 2, 2.75]], [[0, 1, 3], [1, 2, 4]])
     add('Lrev', 'MeshLine1', [[1, 0, .25 + o(1, 1)[0], 2.5]], [[0, 2, 1], [3, 0, 2]])
 
     # ---- triangles
+    add('T1', 'MeshTri1', np.array([[0, 0], [1.25, .25], [.25, 1]]).T, np.array([[0, 1, 2]]).T)      # a single cell
     add('T2', 'MeshTri1', np.array([[0, 0], [1, 0], [0, 1], [1.25, .75]]).T,
         np.array([[0, 1, 2], [1, 3, 2]]).T)
     c = np.array([.5, .375]) + o(0, 2)
